@@ -7,11 +7,29 @@ import Switcher.Spec.Frame
 import Switcher.Spec.Devices
 import Switcher.Spec.Days
 import Switcher.Spec.Clock
+import Switcher.Spec.Layout
 import Switcher.Model.Wire
 open Spec Wire
 
 def csvNats (s : String) : List Nat := if s == "-" then [] else (s.splitOn ",").filterMap (·.toNat?)
 def showNats (l : List Nat) : String := if l.isEmpty then "-" else ",".intercalate (l.map toString)
+
+def parseOp : List String → Option Op
+  | ["login1"] => some .login1
+  | ["login2"] => some .login2
+  | ["getstate1"] => some .getState1
+  | ["getstate2"] => some .getState2
+  | ["getschedules"] => some .getSchedules
+  | ["stop"] => some .stop
+  | ["control", on, m] => do pure (.control (on == "1") (← nat? m))
+  | ["autooff", s] => do pure (.setAutoOff (← nat? s))
+  | ["setname", chars, u] => do pure (.setName (← nat? chars) (← bytesOfHex? u))
+  | ["delsched", slot] => do pure (.deleteSchedule (← nat? slot))
+  | ["createsched", mask, a, b] => do pure (.createSchedule (← nat? mask) (← nat? a) (← nat? b))
+  | ["setpos", p] => do pure (.setPosition (← nat? p))
+  | ["breezecmd", payload] => do pure (.breezeCommand (← bytesOfHex? payload))
+  | ["breezestatus", st, md, t, f, w] => do pure (.breezeStatus (← nat? st) (← nat? md) (← nat? t) (← nat? f) (← nat? w))
+  | _ => none
 
 def judge : List String → String
   | ["sig", hx] =>                      -- the protocol's four signature bytes of a byte string
@@ -54,6 +72,21 @@ def judge : List String → String
     | _, _, _ => "bad-arg"
   | ["hhmm", m] => match nat? m with
     | some v => String.ofList (hhmm v)
+    | none => "bad-arg"
+  | "c02" :: sid :: ts :: did :: key :: frame :: opToks =>   -- C02: the frame is the reference frame of this op
+    match parseOp opToks, bytesOfHex? frame with
+    | some op, some f =>
+      if !op.accepted then "not-accepted"
+      else if refWire op sid.toList ts.toList did.toList key.toList == some f then "1" else "0"
+    | _, _ => "bad-arg"
+  | "c02acc" :: opToks => match parseOp opToks with
+    | some op => if op.accepted then "1" else "0"
+    | none => "bad-arg"
+  | "ref" :: sid :: ts :: did :: key :: opToks =>
+    match parseOp opToks with
+    | some op => match refWire op sid.toList ts.toList did.toList key.toList with
+      | some f => hexOfBytes f
+      | none => "none"
     | none => "bad-arg"
   | _ => "bad-op"
 
